@@ -67,6 +67,13 @@ def run(res):
                 if eep + delta >= 1:
                     cases.append((sel + ".eseg\n.byte %d\n" % (eep + delta), exp, name, "eeprom/reserve-device-" + how))
     cases.append((".device NoSuchPart\n", "ERR", None, "unknown-device"))
+    known = set(d[0] for d in table)
+    for name in sorted(known):
+        # near misses of every table name: a suffix or prefix more or less, another letter case, a blank inside
+        for cand in (name + "A", name + "P", name + "PA", name + "V", name + "L", name + "-16", name + "_", name[:-1], name[1:], name.lower(), name.upper(),
+                     name.swapcase(), "AT" + name, name.replace("AT", "At", 1), name + "0"):
+            if cand not in known and cand:
+                cases.append((".device %s\n nop\n" % cand, "ERR", None, "unknown-device"))
     cases.append((".device atmega8\n", "ERR", None, "unknown-device"))
     cases.append(("nop\n", "OK", "-", "default"))
     texts = [c[0] for c in cases]
